@@ -148,6 +148,8 @@ func (r *Runner) Exec(line string) error {
 		r.emit(op, class, CanonEvents(evs), true)
 	case "gov":
 		r.emit(op, s.Gov(op), nil, true)
+	case "jump":
+		r.emit(op, s.Jump(op), nil, true)
 	case "mintprobe":
 		r.emit(op, "accept", s.MintProbe(op.i64("t")), false)
 	case "query":
@@ -168,6 +170,43 @@ func (r *Runner) Exec(line string) error {
 		return fmt.Errorf("unknown operation %q", op.Kind)
 	}
 	return nil
+}
+
+// Jump implements `jump module=plan|subscription|session n=<u64>`: the identifier counter of one module is
+// moved forwards with the keeper's own SetCount (the state "as if n identifiers had been issued"); refused
+// when it would move backwards. Inside a block only (deliver state), like a governance step.
+func (s *Sim) Jump(o *Op) (res string) {
+	if !s.InBlock {
+		return "reject:jump:notinblock"
+	}
+	defer func() {
+		if x := recover(); x != nil {
+			res = "reject:panic:" + firstWords(fmt.Sprint(x))
+		}
+	}()
+	ctx := s.Ctx()
+	n := o.u64("n")
+	k := &s.App.VPNKeeper
+	switch o.str("module") {
+	case "plan":
+		if k.Plan.GetCount(ctx) > n {
+			return "reject:jump"
+		}
+		k.Plan.SetCount(ctx, n)
+	case "subscription":
+		if k.Subscription.GetCount(ctx) > n {
+			return "reject:jump"
+		}
+		k.Subscription.SetCount(ctx, n)
+	case "session":
+		if k.Session.GetCount(ctx) > n {
+			return "reject:jump"
+		}
+		k.Session.SetCount(ctx, n)
+	default:
+		return "reject:jump:module"
+	}
+	return "accept"
 }
 
 // MintProbe runs the hub's inflation hook alone, in a cache context that is discarded, at block
